@@ -167,6 +167,7 @@ structure NestCfg where
   maxSimple : Nat := 4
   exprDepth : Nat := 2
   propCombos : Bool := false     -- nested-statement combinations on property symbols (L7)
+  nestedPairs : Bool := false    -- a component-pair combination inside a nested statement
   deriving Repr
 
 def distinctSyms (k : Nat) (pool : List Sym) : GS (List Sym) := do
@@ -189,7 +190,7 @@ partial def genStmtN (cfg : NestCfg) (depth : Nat) (allowPairs : Bool) (nsimple 
       let r ← liftG (below 100)
       if r < 60 || !cfg.combos then
         let anno ← if cfg.nestedAnn then liftG (pick [none, none, some "ctx=y"]) else pure none
-        let inner ← genStmtN cfg (depth - 1) false none
+        let inner ← genStmtN cfg (depth - 1) (cfg.nestedPairs && (← liftG (chance 1 2))) none
         parts := .nested { sym := sym, anno := anno.map String.toList } inner :: parts
       else if !sym.isProperty || cfg.propCombos then
         let n ← liftG (range 2 3)
